@@ -1730,6 +1730,11 @@ class _TotalJacInfo(object):
                             self.model._problem_meta['parallel_deriv_color'] = None
                             self.model._problem_meta['seed_vars'] = None
                 
+                # Entries recovered by substitution (bidirectional coloring with direct=False) are
+                # differences of raw derivatives, so subtract before any unit or driver scaling.
+                if self.simul_coloring is not None and self.simul_coloring._subtractions:
+                    self.simul_coloring._apply_subtractions(self.J)
+
                 self._apply_unit_scaling(self.J_dict)
 
                 # Driver scaling.
@@ -1750,9 +1755,6 @@ class _TotalJacInfo(object):
                     self._print_derivatives()
         finally:
             self.model._recording_iter.pop()
-
-        if self.simul_coloring is not None and self.simul_coloring._subtractions:
-            self.simul_coloring._apply_subtractions(self.J)
 
         return self.J_final
 
